@@ -25,7 +25,13 @@ warnings.simplefilter("ignore")
 
 IMPORTS = ["Webob.Lib.PyStr", "Webob.Model.C16_signed"]
 ALGS = ["sha1", "sha256", "sha512", "md5"]
-DSIZE = {"sha1": 20, "sha256": 32, "sha512": 64, "md5": 16}
+class _DigestSizes(dict):
+    def __missing__(self, alg):
+        self[alg] = hashlib.new(alg).digest_size
+        return self[alg]
+
+
+DSIZE = _DigestSizes({"sha1": 20, "sha256": 32, "sha512": 64, "md5": 16})
 ALPHABET = b"ABCDEFGHIJKLMNOPQRSTUVWXYZabcdefghijklmnopqrstuvwxyz0123456789-_"
 OUTSIDE = [0x2B, 0x2F, 0x3D, 0x20, 0x0A, 0x00, 0xFF, 0x21, 0x2E, 0x3B, 0x22, 0x5C, 0x2C, 0x80, 0x7F, 0x25]
 # (secret, salt): ASCII, latin-1, non-latin-1 (utf-8 fallback), empty / None salt, long secret
@@ -39,11 +45,13 @@ NAMES = ["session", "auth_tkt", "a", "x-y.z"]
 
 # --------------------------------------------------------------------------- reference (independent of webob)
 def ref_key(secret, salt):
+    """salted secret: latin-1 for str parts (bytes parts as they are), utf-8 for all str parts if one is not latin-1"""
     salt = salt or ""
+    enc = lambda x, e: x if isinstance(x, bytes) else x.encode(e)  # noqa
     try:
-        return salt.encode("latin-1") + secret.encode("latin-1")
+        return enc(salt, "latin-1") + enc(secret, "latin-1")
     except UnicodeEncodeError:
-        return salt.encode("utf-8") + secret.encode("utf-8")
+        return enc(salt, "utf-8") + enc(secret, "utf-8")
 
 
 def ref_ser(v):
@@ -883,10 +891,351 @@ def histories(ctx):
     ctx.oracle_count("order", cnt, cnt)
 
 
+# --------------------------------------------------------------------------- configurations, argument shapes, value domains
+# Knobs the code of this property reads: SignedSerializer(secret, salt, hashalg, serializer); CookieProfile /
+# SignedCookieProfile(cookie_name, secure, max_age, httponly, samesite, path, domains, hashalg, serializer), the same as
+# per-call overrides of get_headers / set_cookies and as attributes set after construction; module flags
+# webob.cookies.SAMESITE_VALIDATION and _should_raise; the request class and the response the cookies are set on.
+ALGS_EXT = ALGS + ["sha224", "sha384", "sha3_256", "blake2b", "blake2s", "SHA256"]
+ATTR_SETS = [
+    {}, {"secure": True}, {"httponly": True}, {"max_age": 3600}, {"path": "/app"}, {"samesite": "lax"},
+    {"samesite": "Strict", "secure": True, "httponly": True, "max_age": 0, "path": "/a b;c"},
+    {"samesite": "none", "secure": True}, {"samesite": b"lax", "max_age": "60"}, {"path": None},
+    {"samesite": "none"},                      # without secure: refused by make_cookie (ValueError)
+    {"samesite": "weird"},                     # refused under SAMESITE_VALIDATION, emitted without it
+]
+
+
+def plain(x):
+    """JSON form of a secret / salt that may be bytes"""
+    return {"b": x.hex()} if isinstance(x, bytes) else x
+
+
+def unplain(x):
+    return bytes.fromhex(x["b"]) if isinstance(x, dict) else x
+
+
+def build_profile(case, how):
+    """SignedCookieProfile for `case`, its cookie attributes supplied the way `how` says"""
+    from webob.cookies import SignedCookieProfile, JSONSerializer
+    secret, salt, alg, name = unplain(case["secret"]), unplain(case["salt"]), case["alg"], case["name"]
+    attrs = dict(case["attrs"])
+    doms = case.get("domains")
+    if doms is not None:
+        doms = {"list": list, "tuple": tuple}[case.get("domains_type", "list")](doms)
+    ser = {"none": None, "json": JSONSerializer(), "raw": RawSerializer()}[case.get("serializer", "none")]
+    full = dict(secure=False, max_age=None, httponly=False, samesite=None, path="/")
+    full.update(attrs)
+    if how == "ctor-kw":
+        kw = dict(attrs)
+        if doms is not None:
+            kw["domains"] = doms
+        if ser is not None:
+            kw["serializer"] = ser
+        return SignedCookieProfile(secret=secret, salt=salt, cookie_name=name, hashalg=alg, **kw)
+    if how == "ctor-pos":
+        return SignedCookieProfile(secret, salt, name, full["secure"], full["max_age"], full["httponly"], full["samesite"],
+                                   full["path"], doms, alg, ser)
+    if how == "after":
+        p = SignedCookieProfile(secret, salt, "placeholder", hashalg=alg, serializer=ser)
+        p.cookie_name = name
+        p.domains = doms
+        for k, v in attrs.items():
+            setattr(p, k, v)
+        return p
+    if how == "call":
+        return SignedCookieProfile(secret, salt, name, hashalg=alg, serializer=ser)
+    raise ValueError(how)
+
+
+def expected_cookie_error(attrs, validation):
+    ss = attrs.get("samesite")
+    if ss is None:
+        return False
+    ss = ss.decode() if isinstance(ss, bytes) else ss
+    if validation and ss.lower() not in ("strict", "lax", "none"):
+        return True
+    return ss.lower() == "none" and not attrs.get("secure")
+
+
+def check_config_case(case):
+    """Round trip, rejection and bind() wiring of a SignedCookieProfile under one configuration."""
+    import webob.cookies as wc
+    from webob import Request, Response, BaseRequest
+    from webob.exc import HTTPFound
+    secret, salt, alg, name = unplain(case["secret"]), unplain(case["salt"]), case["alg"], case["name"]
+    attrs, how = dict(case["attrs"]), case["how"]
+    raw = case.get("serializer") == "raw"
+    v = bytes.fromhex(case["value"]["b"]) if raw else json.loads(case["value"])
+    if v is None:
+        return None            # get_headers(None) means "delete the cookie"
+    cstruct = v if raw else ref_ser(v)
+    token = base64.urlsafe_b64encode(ref_signed(secret, salt, alg, cstruct)).rstrip(b"=").decode("ascii")
+    saved = (wc.SAMESITE_VALIDATION, wc._should_raise)
+    wc.SAMESITE_VALIDATION = case.get("samesite_validation", True)
+    wc._should_raise = case.get("should_raise", None)
+    try:
+        p = build_profile(case, how)
+        call_kw = dict(attrs) if how == "call" else {}
+        if how == "call" and case.get("domains") is not None:
+            call_kw["domains"] = list(case["domains"])
+        ok, hs = run_catch(lambda: p.get_headers(v, **call_kw))
+        must_fail = expected_cookie_error(attrs, wc.SAMESITE_VALIDATION)
+        if must_fail:
+            if ok or hs != "ValueError":
+                return "config:bad-samesite-not-refused", "get_headers under %r gave %r, expected ValueError" % (attrs, hs)
+            return None
+        if not ok:
+            return "config:get-headers-raises", "get_headers(%r) raised %s under attrs=%r supplied by %s (%s)" % (v, hs, attrs, how, alg)
+        doms = case.get("domains") or [None]
+        if len(hs) != len(doms):
+            return "config:set-cookie-count", "%d Set-Cookie headers for domains %r" % (len(hs), case.get("domains"))
+        # set_cookies on different kinds of response: same headers, appended, earlier headers kept
+        resp = {"plain": lambda: Response(), "latin1": lambda: Response(charset="latin-1", content_type="text/plain"),
+                "with-cookies": lambda: Response(headerlist=[("Set-Cookie", "other=1; Path=/"), ("X-A", "b")]),
+                "exc": lambda: HTTPFound(location="/x")}[case.get("response", "plain")]()
+        before = list(resp.headerlist)
+        ok, r2 = run_catch(lambda: p.set_cookies(resp, v, **call_kw))
+        if not ok or r2 is not resp or resp.headerlist[:len(before)] != before or \
+                [h.split("; expires=")[0] for _, h in resp.headerlist[len(before):]] != [h.split("; expires=")[0] for _, h in hs]:
+            return "config:set-cookies", "set_cookies on a %s response gave %r, get_headers %r" % (case.get("response"), r2 if not ok else resp.headerlist, hs)
+        Req = {"Request": Request, "BaseRequest": BaseRequest, "SubRequest": type("SubRequest", (Request,), {"charset": "latin-1"})}[case.get("request", "Request")]
+        other_case = name.swapcase() if name.swapcase() != name else name + "X"
+        bad = ("A" if token[0] != "A" else "B") + token[1:]          # first symbol: six bits of the tag
+        foreign = ref_token("other" + str(case["secret"]), None, ALGS[0], {"forged": 1}).decode("ascii")
+        for (_, h), dom in zip(hs, doms):
+            parts = h.split("; ")
+            if parts[0] != "%s=%s" % (name, token):
+                return "config:set-cookie-pair", "Set-Cookie %r does not start with %s=<token issued under %s>" % (h, name, alg)
+            want = {"secure": bool(attrs.get("secure")), "HttpOnly": bool(attrs.get("httponly"))}
+            for flag, on in want.items():
+                if (flag in parts[1:]) != on:
+                    return "config:attribute-lost", "Set-Cookie %r: %s should be %s (attrs %r via %s)" % (h, flag, on, attrs, how)
+            if dom is not None and not any(x.startswith("Domain=") for x in parts):
+                return "config:attribute-lost", "Set-Cookie %r lacks Domain for %r" % (h, dom)
+            if attrs.get("max_age") is not None and not any(x.startswith("Max-Age=") for x in parts):
+                return "config:attribute-lost", "Set-Cookie %r lacks Max-Age" % (h,)
+            if attrs.get("samesite") is not None and not any(x.startswith("SameSite=") for x in parts):
+                return "config:attribute-lost", "Set-Cookie %r lacks SameSite" % (h,)
+            for header, want_v in (("%s=%s" % (name, token), True), ("%s=%s; %s=%s" % (other_case, foreign, name, token), True),
+                                   ("%s=%s; %s=%s" % (name, token, other_case, foreign), True),
+                                   ("%s=%s" % (other_case, token), False), ("%s=%s" % (name, bad), False),
+                                   ("%s=%s" % (name, foreign), False)):
+                for bind_how in ("bind", "call"):
+                    env = {"REQUEST_METHOD": "GET", "SCRIPT_NAME": "", "PATH_INFO": "/", "SERVER_NAME": "localhost",
+                           "SERVER_PORT": "80", "wsgi.url_scheme": case.get("scheme", "http"), "SERVER_PROTOCOL": "HTTP/1.1",
+                           "HTTP_COOKIE": header}
+                    req = Req(env)
+                    b = p.bind(req) if bind_how == "bind" else p(req)
+                    ok, r = run_catch(b.get_value)
+                    good = ok and (r == v if raw else (r is not None or v is None) and same_value(r, v))
+                    if want_v and not good:
+                        return "config:roundtrip", ("value set as %r under attrs=%r (%s, %s, serializer=%s), echoed as Cookie: %r to a %s, "
+                                                    "read back as %r" % (h, attrs, how, alg, case.get("serializer"), header,
+                                                                         Req.__name__, r))
+                    if not want_v and (not ok or r is not None):
+                        return "config:accepted-invalid-cookie", "get_value() = %r for Cookie: %r under attrs=%r" % (r, header, attrs)
+                    # the bound copy carries the profile's configuration and issues the same cookies
+                    if b.request is not req or profile_snapshot(b) != profile_snapshot(p):
+                        return "config:bound-copy-differs", "bind() copy %r differs from the profile %r" % (profile_snapshot(b), profile_snapshot(p))
+            # the 4093 limit does not depend on the configuration
+            ds = DSIZE[alg]
+            for n_, refused in ((3040 - ds, False), (3070 - ds, True)):
+                big = b"A" * (n_ + 2) if raw else "x" * n_
+                for q in (p, p.bind(Req({"HTTP_COOKIE": ""}))):
+                    okb, rb = run_catch(lambda: q.get_headers(big, **call_kw))
+                    if refused and (okb or rb != "ValueError"):
+                        return "config:long-value-accepted", ("a serialisation of %d bytes was not refused under attrs=%r via %s: %r"
+                                                              % ((4 * (ds + n_ + 2) + 2) // 3, attrs, how, rb if not okb else "accepted"))
+                    if not refused and not okb:
+                        return "config:short-value-refused", "a serialisation of %d bytes raised %s under attrs=%r" % (
+                            (4 * (ds + n_ + 2) + 2) // 3, rb, attrs)
+            ok, hb = run_catch(lambda: p.bind(Req({"HTTP_COOKIE": ""})).get_headers(v, **call_kw))
+            if not ok or [x.split("; expires=")[0] for _, x in hb] != [x.split("; expires=")[0] for _, x in hs]:
+                return "config:bound-copy-differs", "bound copy issues %r, the profile %r" % (hb, hs)
+        return None
+    finally:
+        wc.SAMESITE_VALIDATION, wc._should_raise = saved
+
+
+def check_sconfig_case(case):
+    """SignedSerializer under a constructor shape / secret type / digest / serializer, with argument shapes of
+    dumps and loads beyond bytes and str."""
+    from webob.cookies import SignedSerializer, JSONSerializer
+    secret, salt, alg = unplain(case["secret"]), unplain(case["salt"]), case["alg"]
+    ser = {"none": None, "json": JSONSerializer(), "raw": RawSerializer()}[case.get("serializer", "none")]
+    shape = case.get("ctor", "pos")
+    if shape == "pos":
+        s = SignedSerializer(secret, salt, alg, ser) if ser is not None else SignedSerializer(secret, salt, alg)
+    elif shape == "kw":
+        s = SignedSerializer(secret=secret, salt=salt, hashalg=alg, serializer=ser)
+    else:   # default digest
+        alg = "sha512"
+        s = SignedSerializer(secret, salt, serializer=ser)
+    raw = case.get("serializer") == "raw"
+    sub = case["sub"]
+    if sub == "outside":
+        # outside the statement's domain: what remains meaningful is that nothing is issued or accepted silently
+        from webob.cookies import SignedCookieProfile
+        what = case["what"]
+        if what == "xof-digest":            # shake_*: not usable as an HMAC digest
+            x = SignedSerializer("secret", "salt", case["alg"])
+            ok, t = run_catch(x.dumps, {"a": 1})
+            if ok:
+                return "outside:xof-digest-issued-token", "dumps under %s issued %r" % (case["alg"], t)
+            return None
+        if what == "unknown-digest":
+            ok, r = run_catch(SignedSerializer, "secret", "salt", "no-such-hash")
+            if ok or r != "ValueError":
+                return "outside:unknown-digest", "SignedSerializer(hashalg='no-such-hash') gave %r" % (r,)
+            return None
+        if what == "bad-name":              # not an RFC 6265 token / reserved attribute name
+            p = SignedCookieProfile("secret", "salt", case["name"], hashalg="sha256")
+            ok, r = run_catch(p.get_headers, {"a": 1})
+            if ok:
+                return "outside:bad-cookie-name-issued", "get_headers under cookie name %r issued %r" % (case["name"], r)
+            tok = ref_token("secret", "salt", "sha256", {"a": 1}).decode()
+            for header in ("%s=%s" % (case["name"], tok), '"%s"=%s' % (case["name"], tok)):
+                ok, r = run_catch(p.bind(make_request(header)).get_value)
+                if not ok:
+                    return "outside:bad-cookie-name-get-value-raises", "get_value() raised %s for Cookie: %r" % (r, header)
+            return None
+        if what == "generator-domains":     # a one-shot iterable serves one call (documented limitation)
+            p = SignedCookieProfile("secret", "salt", "session", hashalg="sha256", domains=(d for d in ["a.example", "b.example"]))
+            ok, r = run_catch(p.get_headers, {"a": 1})
+            if not ok or len(r) != 2 or any(browser_echo(h) != "session=" + ref_token("secret", "salt", "sha256", {"a": 1}).decode()
+                                            for _, h in r):
+                return "outside:generator-domains-first-call", "first get_headers with a generator of two domains gave %r" % (r,)
+            return None
+        raise ValueError(what)
+    if sub == "value":
+        # values outside strict JSON: what comes back is the JSON normalisation; not serialisable -> no token
+        v = {"tuple": (1, (2, 3)), "intkeys": {1: "a", 2: {3: None}}, "nan": float("nan"), "inf": [float("inf"), -float("inf")],
+             "set": {1, 2}, "bytes": b"x", "object": object(), "nonstr-key-mix": {"1": 1, 1: 2}, "bigint": 10 ** 4000,
+             "deep": None}[case["value_kind"]]
+        if case["value_kind"] == "deep":
+            v = []
+            for _ in range(case.get("depth", 900)):
+                v = [v]
+        ok, t = run_catch(s.dumps, v)
+        try:
+            norm = (json.loads(json.dumps(v)),)
+        except Exception:  # noqa
+            norm = None
+        if norm is None:
+            if ok:
+                return "sconfig:token-for-unserialisable", "dumps(%s) issued %r" % (case["value_kind"], t)
+            return None
+        if not ok:
+            return "sconfig:dumps-raises", "dumps(%s) raised %s" % (case["value_kind"], t)
+        ok, r = run_catch(s.loads, t)
+        if not ok or canon(r) != canon(norm[0]):
+            return "sconfig:roundtrip-normalised", "loads(dumps(%s)) = %r, JSON normalisation %r" % (case["value_kind"], r, norm[0])
+        return None
+    v = bytes.fromhex(case["value"]["b"]) if raw else json.loads(case["value"])
+    cstruct = v if raw else ref_ser(v)
+    signed = ref_signed(secret, salt, alg, cstruct)
+    ok, t = run_catch(s.dumps, v)
+    if not ok or ref_decode(t) != signed:
+        return "sconfig:token-not-tag-plus-payload", ("dumps under secret=%r salt=%r %s (ctor %s, serializer %s) = %r is not "
+                                                      "HMAC(salt+secret, payload)+payload" % (secret, salt, alg, shape, case.get("serializer"), t))
+    same = (lambda r: r == v) if raw else (lambda r: same_value(r, v))
+    tok = bytes(t)
+    forms = {"bytes": tok, "str": tok.decode("ascii"), "bytearray": bytearray(tok), "memoryview": memoryview(tok),
+             "padded": tok + b"=" * (-len(tok) % 4), "none": None, "int": 5, "list": [tok], "tuple": (tok,), "float": 1.5,
+             "empty-bytes": b"", "empty-str": ""}
+    for fname, form in forms.items():
+        ok, r = run_catch(s.loads, form)
+        if not ok and r != "ValueError":
+            return "sconfig:wrong-exception", "loads(<%s>) raised %s, not ValueError" % (fname, r)
+        if ok and not same(r):
+            return "sconfig:returned-other-value", "loads(<%s>) = %r" % (fname, r)
+        if not ok and fname in ("bytes", "str", "bytearray", "padded"):
+            return "sconfig:valid-token-rejected", "loads(<%s of the issued token>) raised under secret=%r salt=%r %s" % (fname, secret, salt, alg)
+    # a neighbouring configuration must not accept it
+    def flip(x):
+        if x is None or len(x) == 0:
+            return "y"
+        return x[:-1] + (bytes([x[-1] ^ 1]) if isinstance(x, bytes) else chr(ord(x[-1]) ^ 1))
+    for s2, l2, a2 in ((flip(secret), salt, alg), (secret, flip(salt), alg),
+                       (secret, salt, "sha256" if hashlib.new(alg).digest_size != 32 else "sha1")):
+        ok, r = run_catch(SignedSerializer(s2, l2, a2, ser).loads if ser is not None else SignedSerializer(s2, l2, a2).loads, tok)
+        if ok or r != "ValueError":
+            return "sconfig:foreign-config-accepted", "token of %r/%r/%s gave %r under %r/%r/%s" % (secret, salt, alg, r, s2, l2, a2)
+    return None
+
+
+def configurations(ctx):
+    rng = ctx.sub_rng("configurations")
+    secrets = [("secret", "salt"), (b"secret", b"salt"), (b"s\xffcret", "salt"), ("sĀcret", b"sa\xfflt"), (b"sec", "sĀ"),
+               ("secret", None), (b"k" * 200, b""), ("s\xe9cret", "s\xe4lt")]
+    cases = []
+    hows = ["ctor-kw", "ctor-pos", "after", "call"]
+    i = 0
+    for attrs in ATTR_SETS:
+        for how in hows:
+            i += 1
+            secret, salt = secrets[i % len(secrets)]
+            raw = i % 5 == 0
+            for validation in ((True, False) if "samesite" in attrs else (True,)):
+                cases.append({"kind": "config", "secret": plain(secret), "salt": plain(salt), "alg": ALGS_EXT[i % len(ALGS_EXT)],
+                              "name": NAMES[i % len(NAMES)], "attrs": {k: (v.decode() if isinstance(v, bytes) else v) for k, v in attrs.items()},
+                              "how": how, "domains": [None, ["example.com"], ["a.example.com", "b.example.com"], []][i % 4],
+                              "domains_type": ["list", "tuple"][i % 2], "serializer": "raw" if raw else ["none", "json"][i % 2],
+                              "value": {"b": bytes(rng.randrange(256) for _ in range(rng.randrange(0, 20))).hex()} if raw
+                              else json.dumps(rng.choice(PAYLOADS[1:-1]) if i % 2 else rand_json(rng)),
+                              "samesite_validation": validation, "should_raise": [None, True][i % 2],
+                              "request": ["Request", "BaseRequest", "SubRequest"][i % 3], "scheme": ["http", "https"][i % 2],
+                              "response": ["plain", "latin1", "with-cookies", "exc"][i % 4]})
+    for _ in range(ctx.scale(300, 3000)):
+        i += 1
+        secret, salt = rng.choice(secrets)
+        attrs = dict(rng.choice(ATTR_SETS[:10]))
+        attrs = {k: (v.decode() if isinstance(v, bytes) else v) for k, v in attrs.items()}
+        raw = rng.random() < 0.2
+        cases.append({"kind": "config", "secret": plain(secret), "salt": plain(salt), "alg": rng.choice(ALGS_EXT), "name": rng.choice(NAMES),
+                      "attrs": attrs, "how": rng.choice(hows), "domains": rng.choice([None, ["example.com"], ["a.b", "c.d", "e.f"], []]),
+                      "domains_type": rng.choice(["list", "tuple"]), "serializer": "raw" if raw else rng.choice(["none", "json"]),
+                      "value": {"b": bytes(rng.randrange(256) for _ in range(rng.randrange(0, 30))).hex()} if raw else json.dumps(rand_json(rng)),
+                      "samesite_validation": rng.choice([True, False]), "should_raise": rng.choice([None, True, False]),
+                      "request": rng.choice(["Request", "BaseRequest", "SubRequest"]), "scheme": rng.choice(["http", "https"]),
+                      "response": rng.choice(["plain", "latin1", "with-cookies", "exc"])})
+    n = 0
+    for case in cases:
+        n += 1
+        res = run_case(case)
+        if res:
+            report(ctx, case, res, "configurations")
+    ctx.oracle_count("configurations", n, n)
+    cases = []
+    for j, (secret, salt) in enumerate(secrets):
+        for k, alg in enumerate(ALGS_EXT):
+            raw = (j + k) % 4 == 0
+            cases.append({"kind": "sconfig", "sub": "token", "secret": plain(secret), "salt": plain(salt), "alg": alg,
+                          "ctor": ["pos", "kw", "default"][(j + k) % 3], "serializer": "raw" if raw else ["none", "json"][k % 2],
+                          "value": {"b": bytes(rng.randrange(256) for _ in range(rng.randrange(0, 20))).hex()} if raw
+                          else json.dumps(PAYLOADS[1:-1][(j * 7 + k) % (len(PAYLOADS) - 2)])})
+    for kind in ("tuple", "intkeys", "nan", "inf", "set", "bytes", "object", "nonstr-key-mix", "bigint", "deep"):
+        for alg in ("sha256", "blake2b"):
+            cases.append({"kind": "sconfig", "sub": "value", "secret": "secret", "salt": "salt", "alg": alg, "value_kind": kind,
+                          "depth": 400})
+    base_out = {"kind": "sconfig", "sub": "outside", "secret": "secret", "salt": "salt", "alg": "sha256"}
+    cases += [dict(base_out, what="xof-digest", alg="shake_128"), dict(base_out, what="xof-digest", alg="shake_256"),
+              dict(base_out, what="unknown-digest"), dict(base_out, what="generator-domains")]
+    cases += [dict(base_out, what="bad-name", name=n_) for n_ in ("bad name", "a=b", "a;b", "path", "Max-Age", "$x", "n\xe9", "a,b", "")]
+    n = 0
+    for case in cases:
+        n += 1
+        res = run_case(case)
+        if res:
+            report(ctx, case, res, "argument-shapes")
+    ctx.oracle_count("argument-shapes", n, n)
+
+
 CHECKS = {"loads": check_loads_case, "roundtrip": check_roundtrip_case, "get_value": check_get_value_case,
           "profile": check_profile_roundtrip_case, "limit": check_limit_case, "plain": check_plain_case,
           "echo": check_echo_case, "rawlimit": check_rawlimit_case, "history": check_history_case,
-          "order": check_order_case}
+          "order": check_order_case, "config": check_config_case, "sconfig": check_sconfig_case}
 
 
 def fresh_module():
@@ -1052,7 +1401,7 @@ def corr_signed(ctx, rng, n):
     dcases, lcases = [], []
     for i in range(n):
         secret, salt = rng.choice(SECRETS) if i % 2 else rand_secret(rng)
-        alg = ALGS[i % 4]
+        alg = ALGS[i % 4] if i % 3 else ALGS_EXT[(i // 3) % len(ALGS_EXT)]      # also digests beyond the four named
         v = rng.choice(PAYLOADS) if i % 3 == 0 else rand_json(rng)
         base = {"secret": secret, "salt": salt, "alg": alg, "value": json.dumps(v)}
         with recording() as rec:
@@ -1121,7 +1470,7 @@ def corr_get_value(ctx, rng, n):
     gcases, pcases = [], []
     for i in range(n):
         secret, salt = rng.choice(SECRETS) if i % 2 else rand_secret(rng)
-        alg = ALGS[i % 4]
+        alg = ALGS[i % 4] if i % 3 else ALGS_EXT[(i // 3) % len(ALGS_EXT)]      # also digests beyond the four named
         name = rng.choice(NAMES)
         v = rng.choice(PAYLOADS) if i % 3 == 0 else rand_json(rng)
         ok, t = run_catch(lambda: ref_token(secret, salt, alg, v))
@@ -1180,7 +1529,8 @@ def corr_get_headers(ctx, rng, n):
     hcases = []
     specs = []
     for alg in ALGS:
-        for target in (4093, 4094) if alg != "sha256" and not ctx.thorough else (4091, 4092, 4093, 4094, 4095, 4097):
+        for target in ((4092 if alg == "md5" else 4094,) if alg != "sha256" and not ctx.thorough
+                       else (4091, 4092, 4093, 4094, 4095, 4097)):
             specs.append((alg, target, []))
     for i in range(ctx.scale(60, 300)):
         specs.append((ALGS[i % 4], rng.choice([60, 100, 200, rng.randrange(30, 600), rng.randrange(30, 600),
@@ -1202,7 +1552,7 @@ def corr_get_headers(ctx, rng, n):
                                   "domains": domains}))
     # any length, through a serializer that is the identity on bytes (4093 itself is not a length a base64 token can have)
     rcases = []
-    for i, n_ in enumerate(list(range(4086, 4100)) + [rng.randrange(1, 300) for _ in range(20)]):
+    for i, n_ in enumerate(list(range(*ctx.scale((4091, 4096), (4080, 4110)))) + [rng.randrange(1, 300) for _ in range(20)]):
         name = NAMES[i % len(NAMES)]
         domains = [[], ["example.com"], ["a.example.com", "example.com"]][i % 3]
         body = bytes(rng.choice(ALPHABET) for _ in range(n_))
@@ -1453,6 +1803,7 @@ def run(ctx):
     correspondence(ctx)
     oracle(ctx)
     histories(ctx)
+    configurations(ctx)
     ctx.extra["rule"] = (
         "correspondence: generated (secret, salt, digest, JSON value) configurations; for each, the token issued by the real "
         "code, random alterations of it, junk and foreign tokens are presented to the real loads/get_value/get_headers and to "
@@ -1468,7 +1819,12 @@ def run(ctx):
         "get_headers/set_cookies/bind+get_value/re-query/re-cookie/unbound get_value with valid, same-prefix-tampered and "
         "foreign tokens (incl. secrets and salts longer than the hash block differing in the last character); every answer "
         "must equal a fresh object's and the reference's, and neither the unbound profile nor earlier bound copies may change; "
-        "order: the same single calls in several orders within one process (module-level state).")
+        "order: the same single calls in several orders within one process (module-level state).  "
+        "configurations / argument-shapes: SignedCookieProfile under every cookie-attribute set (secure, httponly, max_age, path, "
+        "samesite incl. refused ones) supplied by keyword, positionally, after construction or per call, x SAMESITE_VALIDATION, "
+        "_should_raise, 10 digests, str/bytes/mixed secrets, None/JSON/pass-through serializer, list/tuple/empty domains, three "
+        "request classes, http/https, four kinds of response; SignedSerializer constructor shapes, loads of "
+        "bytes/str/bytearray/memoryview/None/int/list, values outside strict JSON, and inputs outside the statement's domain.")
     ctx.extra["exhaustive"] = False
     ctx.assume += [
         "HMAC unforgeability is the cryptographic assumption of the property: the theorems prove that any accepted token "
